@@ -9,4 +9,4 @@ for p in "$@"; do
   echo "$p exit=$rc $(grep -c VIOLATION /tmp/try_$p.out) violations; $(grep -m3 -E '^  [A-Z][0-9]+_|^  [A-Z]+[0-9]*_|TOOL-ERROR' /tmp/try_$p.out | tr '\n' ';' | cut -c1-300)"
   [ -f /tmp/try_ev_$p.json ] && mv /tmp/try_ev_$p.json /verif/evidence/$p.json
 done
-git -C /repo checkout -- .
+git -C /repo checkout -- . ; git -C /repo clean -fdq -- src
